@@ -35,6 +35,1556 @@ def invAffine (b : Byte) : Byte :=
 
 def invSbox (x : Byte) : Byte := gfinv (invAffine x)
 
+
+/-- FIPS-197 Figure 7 (the S-box as a table) as a decision tree; proved equal to the algebraic definition above and
+    substituted for it in compiled code only (`csimp`), so that the executable specification is fast -/
+def sboxTableN (n : Nat) : Byte :=
+  if n < 128 then
+    if n < 64 then
+      if n < 32 then
+        if n < 16 then
+          if n < 8 then
+            if n < 4 then
+              if n < 2 then
+                if n < 1 then
+                  99
+                else
+                  124
+              else
+                if n < 3 then
+                  119
+                else
+                  123
+            else
+              if n < 6 then
+                if n < 5 then
+                  242
+                else
+                  107
+              else
+                if n < 7 then
+                  111
+                else
+                  197
+          else
+            if n < 12 then
+              if n < 10 then
+                if n < 9 then
+                  48
+                else
+                  1
+              else
+                if n < 11 then
+                  103
+                else
+                  43
+            else
+              if n < 14 then
+                if n < 13 then
+                  254
+                else
+                  215
+              else
+                if n < 15 then
+                  171
+                else
+                  118
+        else
+          if n < 24 then
+            if n < 20 then
+              if n < 18 then
+                if n < 17 then
+                  202
+                else
+                  130
+              else
+                if n < 19 then
+                  201
+                else
+                  125
+            else
+              if n < 22 then
+                if n < 21 then
+                  250
+                else
+                  89
+              else
+                if n < 23 then
+                  71
+                else
+                  240
+          else
+            if n < 28 then
+              if n < 26 then
+                if n < 25 then
+                  173
+                else
+                  212
+              else
+                if n < 27 then
+                  162
+                else
+                  175
+            else
+              if n < 30 then
+                if n < 29 then
+                  156
+                else
+                  164
+              else
+                if n < 31 then
+                  114
+                else
+                  192
+      else
+        if n < 48 then
+          if n < 40 then
+            if n < 36 then
+              if n < 34 then
+                if n < 33 then
+                  183
+                else
+                  253
+              else
+                if n < 35 then
+                  147
+                else
+                  38
+            else
+              if n < 38 then
+                if n < 37 then
+                  54
+                else
+                  63
+              else
+                if n < 39 then
+                  247
+                else
+                  204
+          else
+            if n < 44 then
+              if n < 42 then
+                if n < 41 then
+                  52
+                else
+                  165
+              else
+                if n < 43 then
+                  229
+                else
+                  241
+            else
+              if n < 46 then
+                if n < 45 then
+                  113
+                else
+                  216
+              else
+                if n < 47 then
+                  49
+                else
+                  21
+        else
+          if n < 56 then
+            if n < 52 then
+              if n < 50 then
+                if n < 49 then
+                  4
+                else
+                  199
+              else
+                if n < 51 then
+                  35
+                else
+                  195
+            else
+              if n < 54 then
+                if n < 53 then
+                  24
+                else
+                  150
+              else
+                if n < 55 then
+                  5
+                else
+                  154
+          else
+            if n < 60 then
+              if n < 58 then
+                if n < 57 then
+                  7
+                else
+                  18
+              else
+                if n < 59 then
+                  128
+                else
+                  226
+            else
+              if n < 62 then
+                if n < 61 then
+                  235
+                else
+                  39
+              else
+                if n < 63 then
+                  178
+                else
+                  117
+    else
+      if n < 96 then
+        if n < 80 then
+          if n < 72 then
+            if n < 68 then
+              if n < 66 then
+                if n < 65 then
+                  9
+                else
+                  131
+              else
+                if n < 67 then
+                  44
+                else
+                  26
+            else
+              if n < 70 then
+                if n < 69 then
+                  27
+                else
+                  110
+              else
+                if n < 71 then
+                  90
+                else
+                  160
+          else
+            if n < 76 then
+              if n < 74 then
+                if n < 73 then
+                  82
+                else
+                  59
+              else
+                if n < 75 then
+                  214
+                else
+                  179
+            else
+              if n < 78 then
+                if n < 77 then
+                  41
+                else
+                  227
+              else
+                if n < 79 then
+                  47
+                else
+                  132
+        else
+          if n < 88 then
+            if n < 84 then
+              if n < 82 then
+                if n < 81 then
+                  83
+                else
+                  209
+              else
+                if n < 83 then
+                  0
+                else
+                  237
+            else
+              if n < 86 then
+                if n < 85 then
+                  32
+                else
+                  252
+              else
+                if n < 87 then
+                  177
+                else
+                  91
+          else
+            if n < 92 then
+              if n < 90 then
+                if n < 89 then
+                  106
+                else
+                  203
+              else
+                if n < 91 then
+                  190
+                else
+                  57
+            else
+              if n < 94 then
+                if n < 93 then
+                  74
+                else
+                  76
+              else
+                if n < 95 then
+                  88
+                else
+                  207
+      else
+        if n < 112 then
+          if n < 104 then
+            if n < 100 then
+              if n < 98 then
+                if n < 97 then
+                  208
+                else
+                  239
+              else
+                if n < 99 then
+                  170
+                else
+                  251
+            else
+              if n < 102 then
+                if n < 101 then
+                  67
+                else
+                  77
+              else
+                if n < 103 then
+                  51
+                else
+                  133
+          else
+            if n < 108 then
+              if n < 106 then
+                if n < 105 then
+                  69
+                else
+                  249
+              else
+                if n < 107 then
+                  2
+                else
+                  127
+            else
+              if n < 110 then
+                if n < 109 then
+                  80
+                else
+                  60
+              else
+                if n < 111 then
+                  159
+                else
+                  168
+        else
+          if n < 120 then
+            if n < 116 then
+              if n < 114 then
+                if n < 113 then
+                  81
+                else
+                  163
+              else
+                if n < 115 then
+                  64
+                else
+                  143
+            else
+              if n < 118 then
+                if n < 117 then
+                  146
+                else
+                  157
+              else
+                if n < 119 then
+                  56
+                else
+                  245
+          else
+            if n < 124 then
+              if n < 122 then
+                if n < 121 then
+                  188
+                else
+                  182
+              else
+                if n < 123 then
+                  218
+                else
+                  33
+            else
+              if n < 126 then
+                if n < 125 then
+                  16
+                else
+                  255
+              else
+                if n < 127 then
+                  243
+                else
+                  210
+  else
+    if n < 192 then
+      if n < 160 then
+        if n < 144 then
+          if n < 136 then
+            if n < 132 then
+              if n < 130 then
+                if n < 129 then
+                  205
+                else
+                  12
+              else
+                if n < 131 then
+                  19
+                else
+                  236
+            else
+              if n < 134 then
+                if n < 133 then
+                  95
+                else
+                  151
+              else
+                if n < 135 then
+                  68
+                else
+                  23
+          else
+            if n < 140 then
+              if n < 138 then
+                if n < 137 then
+                  196
+                else
+                  167
+              else
+                if n < 139 then
+                  126
+                else
+                  61
+            else
+              if n < 142 then
+                if n < 141 then
+                  100
+                else
+                  93
+              else
+                if n < 143 then
+                  25
+                else
+                  115
+        else
+          if n < 152 then
+            if n < 148 then
+              if n < 146 then
+                if n < 145 then
+                  96
+                else
+                  129
+              else
+                if n < 147 then
+                  79
+                else
+                  220
+            else
+              if n < 150 then
+                if n < 149 then
+                  34
+                else
+                  42
+              else
+                if n < 151 then
+                  144
+                else
+                  136
+          else
+            if n < 156 then
+              if n < 154 then
+                if n < 153 then
+                  70
+                else
+                  238
+              else
+                if n < 155 then
+                  184
+                else
+                  20
+            else
+              if n < 158 then
+                if n < 157 then
+                  222
+                else
+                  94
+              else
+                if n < 159 then
+                  11
+                else
+                  219
+      else
+        if n < 176 then
+          if n < 168 then
+            if n < 164 then
+              if n < 162 then
+                if n < 161 then
+                  224
+                else
+                  50
+              else
+                if n < 163 then
+                  58
+                else
+                  10
+            else
+              if n < 166 then
+                if n < 165 then
+                  73
+                else
+                  6
+              else
+                if n < 167 then
+                  36
+                else
+                  92
+          else
+            if n < 172 then
+              if n < 170 then
+                if n < 169 then
+                  194
+                else
+                  211
+              else
+                if n < 171 then
+                  172
+                else
+                  98
+            else
+              if n < 174 then
+                if n < 173 then
+                  145
+                else
+                  149
+              else
+                if n < 175 then
+                  228
+                else
+                  121
+        else
+          if n < 184 then
+            if n < 180 then
+              if n < 178 then
+                if n < 177 then
+                  231
+                else
+                  200
+              else
+                if n < 179 then
+                  55
+                else
+                  109
+            else
+              if n < 182 then
+                if n < 181 then
+                  141
+                else
+                  213
+              else
+                if n < 183 then
+                  78
+                else
+                  169
+          else
+            if n < 188 then
+              if n < 186 then
+                if n < 185 then
+                  108
+                else
+                  86
+              else
+                if n < 187 then
+                  244
+                else
+                  234
+            else
+              if n < 190 then
+                if n < 189 then
+                  101
+                else
+                  122
+              else
+                if n < 191 then
+                  174
+                else
+                  8
+    else
+      if n < 224 then
+        if n < 208 then
+          if n < 200 then
+            if n < 196 then
+              if n < 194 then
+                if n < 193 then
+                  186
+                else
+                  120
+              else
+                if n < 195 then
+                  37
+                else
+                  46
+            else
+              if n < 198 then
+                if n < 197 then
+                  28
+                else
+                  166
+              else
+                if n < 199 then
+                  180
+                else
+                  198
+          else
+            if n < 204 then
+              if n < 202 then
+                if n < 201 then
+                  232
+                else
+                  221
+              else
+                if n < 203 then
+                  116
+                else
+                  31
+            else
+              if n < 206 then
+                if n < 205 then
+                  75
+                else
+                  189
+              else
+                if n < 207 then
+                  139
+                else
+                  138
+        else
+          if n < 216 then
+            if n < 212 then
+              if n < 210 then
+                if n < 209 then
+                  112
+                else
+                  62
+              else
+                if n < 211 then
+                  181
+                else
+                  102
+            else
+              if n < 214 then
+                if n < 213 then
+                  72
+                else
+                  3
+              else
+                if n < 215 then
+                  246
+                else
+                  14
+          else
+            if n < 220 then
+              if n < 218 then
+                if n < 217 then
+                  97
+                else
+                  53
+              else
+                if n < 219 then
+                  87
+                else
+                  185
+            else
+              if n < 222 then
+                if n < 221 then
+                  134
+                else
+                  193
+              else
+                if n < 223 then
+                  29
+                else
+                  158
+      else
+        if n < 240 then
+          if n < 232 then
+            if n < 228 then
+              if n < 226 then
+                if n < 225 then
+                  225
+                else
+                  248
+              else
+                if n < 227 then
+                  152
+                else
+                  17
+            else
+              if n < 230 then
+                if n < 229 then
+                  105
+                else
+                  217
+              else
+                if n < 231 then
+                  142
+                else
+                  148
+          else
+            if n < 236 then
+              if n < 234 then
+                if n < 233 then
+                  155
+                else
+                  30
+              else
+                if n < 235 then
+                  135
+                else
+                  233
+            else
+              if n < 238 then
+                if n < 237 then
+                  206
+                else
+                  85
+              else
+                if n < 239 then
+                  40
+                else
+                  223
+        else
+          if n < 248 then
+            if n < 244 then
+              if n < 242 then
+                if n < 241 then
+                  140
+                else
+                  161
+              else
+                if n < 243 then
+                  137
+                else
+                  13
+            else
+              if n < 246 then
+                if n < 245 then
+                  191
+                else
+                  230
+              else
+                if n < 247 then
+                  66
+                else
+                  104
+          else
+            if n < 252 then
+              if n < 250 then
+                if n < 249 then
+                  65
+                else
+                  153
+              else
+                if n < 251 then
+                  45
+                else
+                  15
+            else
+              if n < 254 then
+                if n < 253 then
+                  176
+                else
+                  84
+              else
+                if n < 255 then
+                  187
+                else
+                  22
+
+def sboxFast (x : Byte) : Byte := sboxTableN x.toNat
+
+@[csimp] theorem sbox_eq_sboxFast : @sbox = @sboxFast := by
+  funext x; revert x; decide +kernel
+
+/-- FIPS-197 Figure 14 (inverse S-box), same treatment -/
+def invSboxTableN (n : Nat) : Byte :=
+  if n < 128 then
+    if n < 64 then
+      if n < 32 then
+        if n < 16 then
+          if n < 8 then
+            if n < 4 then
+              if n < 2 then
+                if n < 1 then
+                  82
+                else
+                  9
+              else
+                if n < 3 then
+                  106
+                else
+                  213
+            else
+              if n < 6 then
+                if n < 5 then
+                  48
+                else
+                  54
+              else
+                if n < 7 then
+                  165
+                else
+                  56
+          else
+            if n < 12 then
+              if n < 10 then
+                if n < 9 then
+                  191
+                else
+                  64
+              else
+                if n < 11 then
+                  163
+                else
+                  158
+            else
+              if n < 14 then
+                if n < 13 then
+                  129
+                else
+                  243
+              else
+                if n < 15 then
+                  215
+                else
+                  251
+        else
+          if n < 24 then
+            if n < 20 then
+              if n < 18 then
+                if n < 17 then
+                  124
+                else
+                  227
+              else
+                if n < 19 then
+                  57
+                else
+                  130
+            else
+              if n < 22 then
+                if n < 21 then
+                  155
+                else
+                  47
+              else
+                if n < 23 then
+                  255
+                else
+                  135
+          else
+            if n < 28 then
+              if n < 26 then
+                if n < 25 then
+                  52
+                else
+                  142
+              else
+                if n < 27 then
+                  67
+                else
+                  68
+            else
+              if n < 30 then
+                if n < 29 then
+                  196
+                else
+                  222
+              else
+                if n < 31 then
+                  233
+                else
+                  203
+      else
+        if n < 48 then
+          if n < 40 then
+            if n < 36 then
+              if n < 34 then
+                if n < 33 then
+                  84
+                else
+                  123
+              else
+                if n < 35 then
+                  148
+                else
+                  50
+            else
+              if n < 38 then
+                if n < 37 then
+                  166
+                else
+                  194
+              else
+                if n < 39 then
+                  35
+                else
+                  61
+          else
+            if n < 44 then
+              if n < 42 then
+                if n < 41 then
+                  238
+                else
+                  76
+              else
+                if n < 43 then
+                  149
+                else
+                  11
+            else
+              if n < 46 then
+                if n < 45 then
+                  66
+                else
+                  250
+              else
+                if n < 47 then
+                  195
+                else
+                  78
+        else
+          if n < 56 then
+            if n < 52 then
+              if n < 50 then
+                if n < 49 then
+                  8
+                else
+                  46
+              else
+                if n < 51 then
+                  161
+                else
+                  102
+            else
+              if n < 54 then
+                if n < 53 then
+                  40
+                else
+                  217
+              else
+                if n < 55 then
+                  36
+                else
+                  178
+          else
+            if n < 60 then
+              if n < 58 then
+                if n < 57 then
+                  118
+                else
+                  91
+              else
+                if n < 59 then
+                  162
+                else
+                  73
+            else
+              if n < 62 then
+                if n < 61 then
+                  109
+                else
+                  139
+              else
+                if n < 63 then
+                  209
+                else
+                  37
+    else
+      if n < 96 then
+        if n < 80 then
+          if n < 72 then
+            if n < 68 then
+              if n < 66 then
+                if n < 65 then
+                  114
+                else
+                  248
+              else
+                if n < 67 then
+                  246
+                else
+                  100
+            else
+              if n < 70 then
+                if n < 69 then
+                  134
+                else
+                  104
+              else
+                if n < 71 then
+                  152
+                else
+                  22
+          else
+            if n < 76 then
+              if n < 74 then
+                if n < 73 then
+                  212
+                else
+                  164
+              else
+                if n < 75 then
+                  92
+                else
+                  204
+            else
+              if n < 78 then
+                if n < 77 then
+                  93
+                else
+                  101
+              else
+                if n < 79 then
+                  182
+                else
+                  146
+        else
+          if n < 88 then
+            if n < 84 then
+              if n < 82 then
+                if n < 81 then
+                  108
+                else
+                  112
+              else
+                if n < 83 then
+                  72
+                else
+                  80
+            else
+              if n < 86 then
+                if n < 85 then
+                  253
+                else
+                  237
+              else
+                if n < 87 then
+                  185
+                else
+                  218
+          else
+            if n < 92 then
+              if n < 90 then
+                if n < 89 then
+                  94
+                else
+                  21
+              else
+                if n < 91 then
+                  70
+                else
+                  87
+            else
+              if n < 94 then
+                if n < 93 then
+                  167
+                else
+                  141
+              else
+                if n < 95 then
+                  157
+                else
+                  132
+      else
+        if n < 112 then
+          if n < 104 then
+            if n < 100 then
+              if n < 98 then
+                if n < 97 then
+                  144
+                else
+                  216
+              else
+                if n < 99 then
+                  171
+                else
+                  0
+            else
+              if n < 102 then
+                if n < 101 then
+                  140
+                else
+                  188
+              else
+                if n < 103 then
+                  211
+                else
+                  10
+          else
+            if n < 108 then
+              if n < 106 then
+                if n < 105 then
+                  247
+                else
+                  228
+              else
+                if n < 107 then
+                  88
+                else
+                  5
+            else
+              if n < 110 then
+                if n < 109 then
+                  184
+                else
+                  179
+              else
+                if n < 111 then
+                  69
+                else
+                  6
+        else
+          if n < 120 then
+            if n < 116 then
+              if n < 114 then
+                if n < 113 then
+                  208
+                else
+                  44
+              else
+                if n < 115 then
+                  30
+                else
+                  143
+            else
+              if n < 118 then
+                if n < 117 then
+                  202
+                else
+                  63
+              else
+                if n < 119 then
+                  15
+                else
+                  2
+          else
+            if n < 124 then
+              if n < 122 then
+                if n < 121 then
+                  193
+                else
+                  175
+              else
+                if n < 123 then
+                  189
+                else
+                  3
+            else
+              if n < 126 then
+                if n < 125 then
+                  1
+                else
+                  19
+              else
+                if n < 127 then
+                  138
+                else
+                  107
+  else
+    if n < 192 then
+      if n < 160 then
+        if n < 144 then
+          if n < 136 then
+            if n < 132 then
+              if n < 130 then
+                if n < 129 then
+                  58
+                else
+                  145
+              else
+                if n < 131 then
+                  17
+                else
+                  65
+            else
+              if n < 134 then
+                if n < 133 then
+                  79
+                else
+                  103
+              else
+                if n < 135 then
+                  220
+                else
+                  234
+          else
+            if n < 140 then
+              if n < 138 then
+                if n < 137 then
+                  151
+                else
+                  242
+              else
+                if n < 139 then
+                  207
+                else
+                  206
+            else
+              if n < 142 then
+                if n < 141 then
+                  240
+                else
+                  180
+              else
+                if n < 143 then
+                  230
+                else
+                  115
+        else
+          if n < 152 then
+            if n < 148 then
+              if n < 146 then
+                if n < 145 then
+                  150
+                else
+                  172
+              else
+                if n < 147 then
+                  116
+                else
+                  34
+            else
+              if n < 150 then
+                if n < 149 then
+                  231
+                else
+                  173
+              else
+                if n < 151 then
+                  53
+                else
+                  133
+          else
+            if n < 156 then
+              if n < 154 then
+                if n < 153 then
+                  226
+                else
+                  249
+              else
+                if n < 155 then
+                  55
+                else
+                  232
+            else
+              if n < 158 then
+                if n < 157 then
+                  28
+                else
+                  117
+              else
+                if n < 159 then
+                  223
+                else
+                  110
+      else
+        if n < 176 then
+          if n < 168 then
+            if n < 164 then
+              if n < 162 then
+                if n < 161 then
+                  71
+                else
+                  241
+              else
+                if n < 163 then
+                  26
+                else
+                  113
+            else
+              if n < 166 then
+                if n < 165 then
+                  29
+                else
+                  41
+              else
+                if n < 167 then
+                  197
+                else
+                  137
+          else
+            if n < 172 then
+              if n < 170 then
+                if n < 169 then
+                  111
+                else
+                  183
+              else
+                if n < 171 then
+                  98
+                else
+                  14
+            else
+              if n < 174 then
+                if n < 173 then
+                  170
+                else
+                  24
+              else
+                if n < 175 then
+                  190
+                else
+                  27
+        else
+          if n < 184 then
+            if n < 180 then
+              if n < 178 then
+                if n < 177 then
+                  252
+                else
+                  86
+              else
+                if n < 179 then
+                  62
+                else
+                  75
+            else
+              if n < 182 then
+                if n < 181 then
+                  198
+                else
+                  210
+              else
+                if n < 183 then
+                  121
+                else
+                  32
+          else
+            if n < 188 then
+              if n < 186 then
+                if n < 185 then
+                  154
+                else
+                  219
+              else
+                if n < 187 then
+                  192
+                else
+                  254
+            else
+              if n < 190 then
+                if n < 189 then
+                  120
+                else
+                  205
+              else
+                if n < 191 then
+                  90
+                else
+                  244
+    else
+      if n < 224 then
+        if n < 208 then
+          if n < 200 then
+            if n < 196 then
+              if n < 194 then
+                if n < 193 then
+                  31
+                else
+                  221
+              else
+                if n < 195 then
+                  168
+                else
+                  51
+            else
+              if n < 198 then
+                if n < 197 then
+                  136
+                else
+                  7
+              else
+                if n < 199 then
+                  199
+                else
+                  49
+          else
+            if n < 204 then
+              if n < 202 then
+                if n < 201 then
+                  177
+                else
+                  18
+              else
+                if n < 203 then
+                  16
+                else
+                  89
+            else
+              if n < 206 then
+                if n < 205 then
+                  39
+                else
+                  128
+              else
+                if n < 207 then
+                  236
+                else
+                  95
+        else
+          if n < 216 then
+            if n < 212 then
+              if n < 210 then
+                if n < 209 then
+                  96
+                else
+                  81
+              else
+                if n < 211 then
+                  127
+                else
+                  169
+            else
+              if n < 214 then
+                if n < 213 then
+                  25
+                else
+                  181
+              else
+                if n < 215 then
+                  74
+                else
+                  13
+          else
+            if n < 220 then
+              if n < 218 then
+                if n < 217 then
+                  45
+                else
+                  229
+              else
+                if n < 219 then
+                  122
+                else
+                  159
+            else
+              if n < 222 then
+                if n < 221 then
+                  147
+                else
+                  201
+              else
+                if n < 223 then
+                  156
+                else
+                  239
+      else
+        if n < 240 then
+          if n < 232 then
+            if n < 228 then
+              if n < 226 then
+                if n < 225 then
+                  160
+                else
+                  224
+              else
+                if n < 227 then
+                  59
+                else
+                  77
+            else
+              if n < 230 then
+                if n < 229 then
+                  174
+                else
+                  42
+              else
+                if n < 231 then
+                  245
+                else
+                  176
+          else
+            if n < 236 then
+              if n < 234 then
+                if n < 233 then
+                  200
+                else
+                  235
+              else
+                if n < 235 then
+                  187
+                else
+                  60
+            else
+              if n < 238 then
+                if n < 237 then
+                  131
+                else
+                  83
+              else
+                if n < 239 then
+                  153
+                else
+                  97
+        else
+          if n < 248 then
+            if n < 244 then
+              if n < 242 then
+                if n < 241 then
+                  23
+                else
+                  43
+              else
+                if n < 243 then
+                  4
+                else
+                  126
+            else
+              if n < 246 then
+                if n < 245 then
+                  186
+                else
+                  119
+              else
+                if n < 247 then
+                  214
+                else
+                  38
+          else
+            if n < 252 then
+              if n < 250 then
+                if n < 249 then
+                  225
+                else
+                  105
+              else
+                if n < 251 then
+                  20
+                else
+                  99
+            else
+              if n < 254 then
+                if n < 253 then
+                  85
+                else
+                  33
+              else
+                if n < 255 then
+                  12
+                else
+                  125
+
+def invSboxFast (x : Byte) : Byte := invSboxTableN x.toNat
+
+@[csimp] theorem invSbox_eq_invSboxFast : @invSbox = @invSboxFast := by
+  funext x; revert x; decide +kernel
+
 def subBytes (s : Block) : Block := s.map sbox
 def invSubBytes (s : Block) : Block := s.map invSbox
 
